@@ -804,6 +804,9 @@ class PartitionBulkIndexParamSource:
 
     @property
     def percent_completed(self):
+        if self.total_bulks == 0:
+            # the clients sharing this source have no documents to index (fewer documents than clients): nothing left to do
+            return 1.0
         return self.current_bulk / self.total_bulks
 
 
